@@ -70,7 +70,9 @@ LEVEL_TEXT = ('Theorems for all schemas of the voluptuous fragment in use and al
               'class of schemas that every class of the library falls in -- checked by computation on the schemas regenerated '
               'from the source). Cross-option rules (whitelist/blacklist, overrides, collisions, subgrader/grouping rules, nested '
               'delimiters) are characterised on hand-written models tied by correspondence. The claim "a refused configuration '
-              'raises a configuration or validation error" is REFUTED for values that Range/Length cannot order or measure.')
+              'raises a configuration or validation error" is proved for every guarded schema (21 of the 31 class schemas, all '
+              'values) and REFUTED where Range/Length meet values they cannot order or measure; "rebuilding from the exposed '
+              'configuration" is proved at schema level for every class and REFUTED at constructor level (deleted constants).')
 LEVEL_NOTE = ('Interpreter faithfulness to voluptuous and of the rule models to the constructors is differential correspondence '
               '(every validate_config call of the sweep re-evaluated in Coq); documented defaults are a hand-written table.')
 TECHNIQUE = 'Coq proof (deep embedding + interpreter, induction over nested schemas) + source-to-Gallina translator + vm_compute correspondence'
@@ -318,8 +320,16 @@ def check_case(case, res=None, witnesses=None):
     cls, pos, cfg, expect, table = resolve(case)
     w = witnesses if witnesses is not None else []
 
+    if case[0] == 'kw':
+        suspects = sorted(o for o, k, _ in case[2] if k == 'bad') or sorted(o for o, _, _ in case[2])
+    elif case[0] == 'pos':
+        suspects = ['<positional>']
+    else:
+        suspects = sorted(cfg)
+
     def witness(kind, what, **extra):
-        d = {'key': repr(case) + ':' + kind, 'kind': kind, 'case': list(case), 'class': cls.__name__, 'what': what}
+        d = {'key': repr(case) + ':' + kind, 'kind': kind, 'case': list(case), 'class': cls.__name__, 'what': what,
+             'options': suspects}
         d.update(extra)
         w.append(d)
 
@@ -385,7 +395,10 @@ def check_case(case, res=None, witnesses=None):
                 if o.derived_when_given or (k == 'answers' and (case[0] == 'cross' or o.dom.norm is None)):
                     continue
                 want = o.dom.normal(cfg[k])
-                if not same(conf[k], want):
+                got = conf[k]
+                if o.dom.canon:
+                    want, got = o.dom.canon(want), o.dom.canon(got)
+                if not same(got, want):
                     witness('supplied-value', 'option %r was given %r; configuration exposes %r, expected %r'
                             % (k, cfg[k], conf[k], want), option=k)
             else:
@@ -536,7 +549,7 @@ def balanced_files(tag, header, agree_fn, case_type, terms, nshards):
 
 def run_correspondence(ctx, res, recs, w):
     quick = ctx['tier'] == 'quick'
-    cap = (2000 if not ctx['escalate'] else 3500) if quick else 40000
+    cap = (1700 if not ctx['escalate'] else 3200) if quick else 20000
     l1 = [r for r in recs['l1'] if r['cls'] in tr.PUBLIC and 'out' in r]
     res.distribution['validate_config_calls_recorded'] = len(recs['l1'])
     res.distribution['validate_config_calls_untranslated_class'] = len(recs['l1']) - len(l1)
@@ -574,15 +587,15 @@ def run_correspondence(ctx, res, recs, w):
     sl = dedup(recs['slist'], lambda r: (r['in'], r['out']))[:cap]
     batches = [
         ('validate_config', 'c20_l1', hdr1, 'l1_case', '(pyval -> schema) * pyval * list (pyval * outcome pyval) * pyval * obs',
-         [V.l1_term(r) for r in l1], l1, 16 if quick else 32),
+         [V.l1_term(r) for r in l1], l1, 9 if quick else 32),
         ('use_config', 'c20_l0', hdr2, 'l0_case', 'list (list (pyval * pyval)) * option pyval * list (pyval * pyval) * pyval',
-         ['(%s, %s, %s, %s)' % (r['chain'], r['config'], r['kwargs'], r['use']) for r in l0], l0, 3 if quick else 8),
+         ['(%s, %s, %s, %s)' % (r['chain'], r['config'], r['kwargs'], r['use']) for r in l0], l0, 1 if quick else 4),
         ('validate_math_config', 'c20_math', hdr2 + hdr_math, 'math_case', 'list pyval * list pyval * pyval * obs',
-         ['(%s, %s, %s, %s)' % (names[r['dfuncs']], names[r['dvars']], r['in'], r['out']) for r in m], m, 6 if quick else 16),
+         ['(%s, %s, %s, %s)' % (names[r['dfuncs']], names[r['dvars']], r['in'], r['out']) for r in m[:(450 if quick and not ctx['escalate'] else len(m))]], m, 3 if quick else 12),
         ('ListGrader.__init__', 'c20_list', hdr2, 'list_case', 'Z * pyval * outcome pyval * obs',
-         ['(%d, %s, %s, %s)' % (w.class_ids['ListGrader'], r['in'], r['norm'], r['out']) for r in lg], lg, 3 if quick else 8),
+         ['(%d, %s, %s, %s)' % (w.class_ids['ListGrader'], r['in'], r['norm'], r['out']) for r in lg], lg, 2 if quick else 6),
         ('SingleListGrader.__init__', 'c20_slist', hdr2, 'slist_case', 'Z * pyval * obs',
-         ['(%d, %s, %s)' % (w.class_ids['SingleListGrader'], r['in'], r['out']) for r in sl], sl, 2 if quick else 8),
+         ['(%d, %s, %s)' % (w.class_ids['SingleListGrader'], r['in'], r['out']) for r in sl], sl, 1 if quick else 4),
     ]
     files, owner = [], {}
     for level, tag, hdr, fn, ty, terms, rows, nsh in batches:
@@ -628,7 +641,7 @@ def replay(w):
     same_kind = [x for x in found if x['kind'] == w.get('kind')]
     cls, pos, cfg, expect, _ = resolve(case)
     text = '%s(%s): expected %s by the documented domains; %s' % (
-        cls.__name__, repr(pos) if case[0] == 'pos' else ', '.join('%s=%r' % kv for kv in cfg.items()),
+        cls.__name__, repr(pos)[:200] if case[0] == 'pos' else ', '.join('%s=%s' % (k, repr(v)[:120]) for k, v in cfg.items()),
         'acceptance' if expect else 'a configuration/validation error',
         same_kind[0]['what'] if same_kind else 'no violation of kind %s on the current tree' % w.get('kind'))
     return bool(same_kind), text
@@ -636,14 +649,17 @@ def replay(w):
 
 def classify_known(w, known):
     """A known finding is characterised by the call site that raises and the triggering condition:
-       * wrong-error-class: the exception type and the innermost raising frame (file:qualified function);
+       * wrong-error-class: the exception type and the innermost raising frame (file:qualified function), and -- when
+         the entry lists them -- the (class, option) sites the finding is confined to;
        * rebuild-refused: the condition `deleted-default-constant-reused` (a default constant removed with None is
          also declared as a variable / numbered variable)."""
     for e in known:
         kw = e.get('witness', {})
         if w.get('kind') == 'wrong-error-class' and kw.get('kind', 'wrong-error-class') == 'wrong-error-class':
             if kw.get('exc_type') == w.get('exc_type') and kw.get('raise_site') and kw.get('raise_site') == w.get('raise_site'):
-                return e['id']
+                sites = kw.get('sites')      # optional: ["Class.option", ...] the finding is confined to
+                if sites is None or any('%s.%s' % (w.get('class'), o) in sites for o in w.get('options', [])):
+                    return e['id']
         if w.get('kind') == 'rebuild-refused' and kw.get('kind') == 'rebuild-refused':
             if w.get('condition') == 'deleted-default-constant-reused' and kw.get('condition') == w.get('condition'):
                 return e['id']
